@@ -20,7 +20,8 @@ Require Import Cirbo.Model.Base Cirbo.Model.Gate Cirbo.Model.Circuit Cirbo.Model
         Cirbo.Model.FuncProto.
 Require Import Cirbo.Proofs.FuncProtoEnum Cirbo.Proofs.FuncProtoLoops Cirbo.Proofs.FuncProtoQueries
         Cirbo.Proofs.FuncProtoClasses Cirbo.Proofs.FuncProtoSym Cirbo.Proofs.FuncProtoMain
-        Cirbo.Proofs.FuncProtoDefine.
+        Cirbo.Proofs.FuncProtoDefine Cirbo.Proofs.FuncProtoExt.
+Require Import Cirbo.Model.FuncProtoCases.
 
 (* ---- enumeration orders ---- *)
 
@@ -175,6 +176,11 @@ Theorem C12_from_int_binary_func : forall func in_len out_len big_endian a1 a2,
             index_of (endian big_endian r)
             = func (index_of (endian big_endian a1)) (index_of (endian big_endian a2)) mod 2 ^ out_len.
 Proof. exact int_binary_bit_order. Qed.
+
+(* ---- the correspondence check memoises the circuit's evaluations; that is sound ---- *)
+Theorem C12_memoised_circuit_queries : forall c q,
+  run_query ClsCircuit (circ_rep_memo c) q = circuit_query c q.
+Proof. exact memoised_circuit_query. Qed.
 
 (* ---- non-vacuity: a function with its three representations ---- *)
 Example C12_example_represented :
